@@ -781,10 +781,23 @@ func (c *checker) crashCheck(r *run, loRow, hiRow int, opts func(w *row) crashfs
 		if w.opEnd == w.opStart {
 			continue
 		}
-		o := opts(w)
-		ops := r.fs.Ops()
 		// prefixes opStart+1 .. opEnd (prefix == opStart belongs to the previous call / parent history)
-		r.fs.EnumCrash(w.opStart+1, w.opEnd, o, func(ci crashfs.CrashInfo, img *crashfs.Image) bool {
+		c.crashCheckRange(r, ri, w.opStart+1, w.opEnd, opts(w), cont)
+	}
+}
+
+// crashCheckPrefix enumerates and recovers the crash images of one op prefix p of row ri.
+func (c *checker) crashCheckPrefix(r *run, ri, p int, o crashfs.Options, cont func(crashfs.CrashInfo) bool) {
+	if !r.broken {
+		c.crashCheckRange(r, ri, p, p, o, cont)
+	}
+}
+
+func (c *checker) crashCheckRange(r *run, ri, from, to int, o crashfs.Options, cont func(crashfs.CrashInfo) bool) {
+	w := &r.rows[ri]
+	ops := r.fs.Ops()
+	{
+		r.fs.EnumCrash(from, to, o, func(ci crashfs.CrashInfo, img *crashfs.Image) bool {
 			c.images.Add(1)
 			var allowed []string
 			if ci.Prefix == w.opEnd {
